@@ -77,6 +77,8 @@ def suite_extract(ctx):
         grid = gen_grid(emg3d, rng, nz=6 if t % 10 == 3 else None)
         shp = grid.shape_cells
         m = MAPS[t % 6]
+        if t % 8 == 3:               # tiny stored values: the linear mappings
+            m = ['Conductivity', 'Resistivity'][(t // 8) % 2]
         mp = getattr(emg3d.maps, 'Map'+m)()
         lateral = t % 3 != 0         # laterally invariant in 2 of 3 cases
         vti = t % 2 == 0
@@ -87,9 +89,17 @@ def suite_extract(ctx):
         layers = {}
         for d in (['x', 'z'] if vti else ['x']):
             lay = 10.0**rng.uniform(-2, 2, shp[2])
+            if t % 8 == 3:
+                # stored values of the order 1e-9: distinct layers that an
+                # absolute tolerance would call equal
+                lay = np.asarray(mp.backward(
+                    10.0**rng.uniform(-9.5, -8.5, shp[2])), float)
             if t % 4 == 1 and shp[2] > 3:        # equal neighbours (merge)
                 lay[1] = lay[0]
                 lay[-1] = lay[-2]
+                if t % 8 == 5:
+                    # ... and neighbours that differ in the 7th digit only
+                    lay[2] = lay[1]*(1 + 2e-7)
             layers[d] = lay
         if special:
             # stored values 2 -> 3 (x) and 5 -> 4 (z) between layers 0 and 1,
@@ -407,6 +417,11 @@ def suite_layered(ctx):
                 fin[0, 1, :] = False           # a receiver without any datum
                 fin[1, 0, :] = True
                 obs[~fin] = np.nan + 1j*np.nan
+                # gaps marked by +-inf are not finite data either
+                gaps = np.argwhere(~fin)
+                for gi, g_ in enumerate(gaps[:4]):
+                    obs[tuple(g_)] = [np.inf, -np.inf, np.inf*1j,
+                                      np.nan + 1j*np.inf][gi]
                 sv.data['observed'] = sv.data.observed.copy(data=obs)
             with warnings.catch_warnings(), BipoleRec() as br:
                 warnings.simplefilter('ignore')
@@ -583,6 +598,9 @@ def suite_gradient(ctx):
         obs = sv.data.observed.data.copy()
         obs[0, 1, 0] = np.nan
         obs[2, 2, :] = np.nan
+        if w % 2 == 0:
+            obs[1, 0, 1] = np.inf          # a clipped channel
+            obs[3, 3, 0] = -np.inf + 1j*np.nan
         sv.data['observed'] = sv.data.observed.copy(data=obs)
         if 'synthetic' in sv.data:
             del sv.data['synthetic']
